@@ -161,6 +161,12 @@ def plan(prop, tier):
                 G("dial", Leaves="<-LvDial", Quants="<-QSmall", MaxSize=3 if q else 4, MaxLen=3,
                   Variants='{"base", "xsd"}', invs=THEOREMS + ["T13_Dialect"]),
                 T("rand", "dialect", 2000, 40000)]
+    if prop == "C18":
+        return [{"type": "apimc", "tag": "mc", "consts": {"Depth": 6 if q else 8, "RegIds": "{1, 2}", "ItIds": "{1, 2}",
+                                                        "PoolName": '"small"'}},
+                {"type": "apisim", "tag": "sim", "num": 400 if q else 6000, "depth": 14,
+                 "consts": {"Depth": 14, "RegIds": "{1, 2, 3}", "ItIds": "{1, 2, 3}", "PoolName": '"wide"'}},
+                T("threads", "general", 800, 15000, mode="threads")] + ([] if q else [SUITE])
     if prop == "C19":
         return [G("bref", Leaves="<-LvBref", Quants="<-QSmall", MaxSize=5 if q else 6, MaxLen=4 if q else 5,
                   FlagSets="<-OnlyNoFlags"),
@@ -207,6 +213,35 @@ def run_check(prop, tier):
             stage_info.append({"stage": st["tag"], "consts": {k: str(v) for k, v in st["consts"].items()},
                                "invariants": st["invs"], "tlc_states": info["distinct"], "wall_s": info["wall_s"],
                                "behaviours": stats["behaviours"]})
+        elif st["type"] == "apimc":
+            info = orch.tlc_model(tag, "MCApi.tla", st["consts"], ["T5_Inv", "T6_Inv", "T14_Pure"], init="MInit", nxt="MNext",
+                                  extra="VIEW View\nPROPERTY T6_Progress")
+            if info["errors"] or not info["finished"]:
+                sys.stderr.write(info["out"][-3000:])
+                raise ToolError("MCApi: TLC reported %s" % info["errors"][:3])
+            tot["states"] += info["distinct"]
+            tot["transitions"] += info["states"]
+            stage_info.append({"stage": st["tag"], "consts": st["consts"], "invariants": ["T5_Inv", "T6_Inv", "T14_Pure", "T6_Progress"],
+                               "tlc_states": info["distinct"], "wall_s": info["wall_s"], "exhaustive": True})
+        elif st["type"] == "apisim":
+            info, stats, viols = orch.tlc_sim_replay(tag, "MCApi.tla", st["consts"], ["T5_Inv", "T6_Inv", "T14_Pure", "EmitHist"],
+                                                     st["num"], st["depth"], seed, "MInit", "MNext")
+            tot["states"] += info["states"]
+            tot["transitions"] += info["states"]
+            tot["behaviours"] += stats["behaviours"]
+            tot["calls"] += stats["calls"]
+            tot["cases"] += stats["cases"]
+            tot["nontrivial"] += stats["nontrivial"]
+            for k in ("compared", "mismatches"):
+                for kk, vv in stats[k].items():
+                    tot[k][kk] = tot[k].get(kk, 0) + vv
+            samples += stats["samples"][:1]
+            for v in viols:
+                v["src"] = tag
+            allviol += viols
+            stage_info.append({"stage": st["tag"], "histories": stats["behaviours"], "depth": st["depth"], "consts": st["consts"],
+                               "modes": ["sequential on shared objects", "4 threads sharing the Regex objects"],
+                               "wall_s": info["wall_s"]})
         elif st["type"] == "unicode":
             d, us, files = orch.sweep_unicode(tag)
             tt, mm = orch.parallel_trace_specs(tag, files, "UnicodeTrace.tla", "UnicodeTrace.cfg")
@@ -314,4 +349,34 @@ def setup():
 
 
 def replay(path):
-    raise ToolError("replay not implemented yet")
+    """Re-run the cases of a violation file on the current tree (the expectation stored in the file was computed by
+    TLC from the spec when the violation was found) and say whether the code still disagrees."""
+    import subprocess
+    orch.build_harness()
+    d = json.load(open(path))
+    still = 0
+    for v in d["cases"]:
+        if not isinstance(v.get("pat_s"), str):
+            continue
+        cs = lambda s: [ord(c) for c in (s or "")]
+        call = (v.get("call") or "").split("#")[0]
+        op = {"is_match": "is_match", "replace0": "replace", "replace2": "replace", "replace_all": "replace", "replace": "replace",
+              "tokenize": "tokenize", "tok_next": "tokenize", "analyze": "analyze", "ana_next": "analyze"}.get(call, "is_match")
+        repl = v.get("repl") or ("[$0]" if call != "replace2" else "".join(chr(c) for c in (v.get("repl2") or [])))
+        job = {"id": 1, "pat": cs(v["pat_s"]), "flags": cs(v.get("flags")), "x": v.get("x", True), "unopt": bool(v.get("unopt")),
+               "calls": [{"op": op, "s": cs(v.get("s_s")), "r": cs(repl)}]}
+        try:
+            p = subprocess.run([orch.BIN, "worker"], input=json.dumps(job) + "\n", stdout=subprocess.PIPE, text=True, timeout=60)
+            rep = json.loads(p.stdout)
+            obs = rep["res"][0] if rep["res"] else rep["compile"]
+        except subprocess.TimeoutExpired:
+            obs = {"k": "hang"}
+        print("pattern=%r flags=%r input=%r call=%s\n   expected(spec) = %s\n   observed(then) = %s\n   observed(now)  = %s" % (
+            v["pat_s"], v.get("flags"), v.get("s_s"), v.get("call"), json.dumps(v.get("expected"))[:300],
+            json.dumps(v.get("observed"))[:300], json.dumps(obs)[:300]))
+        then = v.get("observed") or {}
+        if isinstance(then, dict) and {k: x for k, x in obs.items() if k not in ("cut", "capped", "extra")} == \
+                {k: x for k, x in then.items() if k not in ("cut", "capped", "extra")}:
+            still += 1
+    print("%d case(s) still behave as recorded" % still)
+    return 1 if still else 0
